@@ -38,6 +38,9 @@ POSITIONS = {
     'heading': (lambda e: 'SEC 1 - ' + e + '\n  x\n', lambda x: x.find('.//' + NS + 'section/' + NS + 'heading')),
     'subheading': (lambda e: 'SEC 1\n  SUBHEADING ' + e + '\n  x\n', lambda x: x.find('.//' + NS + 'section/' + NS + 'subheading')),
     'num': (lambda e: 'SEC ' + e + '\n  x\n', lambda x: x.find('.//' + NS + 'section/' + NS + 'num')),
+    # the num is followed by more on the line, so an escaped space at its end is not at the line edge
+    'num-then-heading': (lambda e: 'SEC ' + e + ' - \\H\n  x\n', lambda x: x.find('.//' + NS + 'section/' + NS + 'num')),
+    'item-num-then-heading': (lambda e: 'ITEMS\n  ITEM ' + e + ' - h\n    x\n', lambda x: x.find('.//' + NS + 'item/' + NS + 'num')),
     'crossheading': (lambda e: 'CROSSHEADING ' + e + '\n', lambda x: x.find('.//' + NS + 'crossHeading')),
     'longtitle': (lambda e: 'PREFACE\n  LONGTITLE ' + e + '\nBODY\nx\n', lambda x: x.find('.//' + NS + 'longTitle/' + NS + 'p')),
     'bold': (lambda e: 'a **' + e + '** b\n', lambda x: x.find('.//' + NS + 'b')),
@@ -75,11 +78,17 @@ def _oracle(args):
         return ('bad', 'text is %r, expected %r' % (got, s), text)
     return ('ok', None, text)
 
+INNER = ('num-then-heading', 'item-num-then-heading')     # positions that are not at the edge of a line: edge whitespace is payload there
+
 def cases(ctx, n):
     out = []
     names = sorted(POSITIONS)
     for _ in range(n):
-        out.append((ctx.rng.choice(names), rand_string(ctx.rng), ctx.rng.choice(['act', 'act', 'doc', 'bill'])))
+        pos = ctx.rng.choice(names)
+        s = rand_string(ctx.rng)
+        if pos in INNER and ctx.rng.random() < 0.5:
+            s = s + ctx.rng.choice([' ', '  ', '\u00a0'])
+        out.append((pos, s, ctx.rng.choice(['act', 'act', 'doc', 'bill'])))
     return out
 
 def correspondence(ctx):
